@@ -6,7 +6,7 @@
    never meet; a yes is backed by a certificate checked here: a branch-free oriented covering
    whose presentation has H1 = Z^3 and the subgroup counts of Z^3 (7 of index 2; 13 of index 3
    when few generators); every corpus symbol gets yes; a panic is never accepted. *)
-EXTENDS Mfd3, Surface2D, Action, Json, IOUtils
+EXTENDS Mfd3, Prism, Action, Json, IOUtils
 Rec == ndJsonDeserialize(IOEnv.TRACE)
 VARIABLE l
 Init == l = 1
@@ -27,6 +27,8 @@ EuclidOK(e) ==
    /\ InDomain(S)
    /\ e.verdict \in Classes3
    /\ (e.corpus => e.verdict = "yes")
+   \* the prism family: known euclidean by construction (curvature 0 in 2-D, covering of the prism symbol)
+   /\ ("prism_of" \in DOMAIN e => Euclidean2D(e.prism_of) /\ IsCoverOf(S, Prism(e.prism_of)) /\ e.verdict = "yes")
    /\ (e.verdict = "yes" => CertOK(e.cert, S))
    /\ \A k \in 1..Len(e.variants) : LET w == e.variants[k] IN
          /\ "panic" \notin DOMAIN w /\ w.verdict \in Classes3
